@@ -3,7 +3,8 @@
    every premise is decided by vm_compute.
 
    Mathematical premises (never axioms): M1 c (p prime), M4 c (associativity of chord-and-tangent addition),
-   order_kills c G (n*G = O), prime n (M2).   Decidable side conditions, one boolean `ec_sideb g`:
+   order_kills c G (n*G = O), prime n (M2).  (For the shipped secp256k1 / secp256r1 generators all four are proved in
+   Proofs/ComposeEcShipped.v — M4 by Proofs/EcAssoc.v — nothing is left there.)   Decidable side conditions, one boolean `ec_sideb g`:
    G on the curve, G reduced, G finite, p = 3 mod 4, n odd, n <= 2^bit_count. *)
 From Coq Require Import ZArith Lia Znumtheory Bool List.
 From PV Require Import Base.Outcome Model.Curve Spec.Weierstrass Spec.EcdsaSpec Gen.GenCurves
